@@ -149,7 +149,12 @@ class Condition(AoE2Object, TriggerComponent):
             return "<< No Attributes >>\n"
 
         if include_condition_definition:
-            return f"{conditions.condition_names[self.condition_type]}:\n{add_tabs(return_string, 1)}"
+            try:
+                condition_name = conditions.condition_names[self.condition_type]
+            except KeyError:
+                condition_name = "Unknown"
+
+            return f"{condition_name}:\n{add_tabs(return_string, 1)}"
 
         return return_string
 
